@@ -282,4 +282,18 @@ PROPS = {
         level_text="Randomised exploration of message values (all types), payloads and chunkings with exact round-trip oracles.",
         level_note="Trusted: google.golang.org/protobuf as the reference decoder and proto.Equal as equality.",
     ),
+    "C16": dict(
+        pkg="c16", level="exploration", needs_binary=True,
+        tests=[T("TestC16", Q(500, timeout=300, shrinktime="20s"), Q(2500, timeout=1500, shards=8, shrinktime="60s"))],
+        rule="A real `regatta leader` process and a real `regatta follower` process replicating from it (production wiring, loopback gRPC, data in a scratch dir) serve every case. A case is 3-25 requests "
+             "(Range, IterateRange, Put, DeleteRange, Txn, Tables Create/Delete/List) to the leader or the follower, sent as exact wire bytes through a pass-through codec. Each request is built valid and then 0, 1 or several documented defects are injected: "
+             "missing table, unknown table, missing key, key of 1025+ bytes, value of 2 MiB+1.., negative limit, keys_only+count_only, a revision filter, missing table name, table mutation on the follower, and - nested in both branches of a txn - a put with missing key / "
+             "over-long key / over-sized value; plus 'hostile' shapes (empty oneof, nested reads with odd options, unknown enum numbers, random bytes) for which only liveness is asserted. Keys and values exactly AT the limits are generated as valid. "
+             "Oracle: an invalid request gets a non-OK status - exactly the documented code when it carries exactly one defect - and a full read of every table before == after; valid requests behave like the model (responses and content); after every request both "
+             "processes are still running (Wait has not returned). Non-trivial iff a request with exactly one defect nested in a txn branch, or a defective request sent to the follower, occurred. Distinct = sha256 of case JSON.",
+        assumptions=["the status-code table is the one in the property statement", "process death is observed through os/exec Wait (timing-free)"],
+        technique="grammar-based request generation with defect injection against the real server binaries, model-based state comparison",
+        level_text="Randomised exploration of request shapes against the production binaries with an exact refusal/no-effect oracle.",
+        level_note="Trusted: model; gRPC client library.",
+    ),
 }
